@@ -359,7 +359,11 @@ def evaluate(rc, stats):
                 if not same_value(v, gotv):
                     prev = [decode(h.get(k)) for h in rc["history"][:ci] if k in h]
                     twin = any(_plain_eq(p, v) and type(p) is not type(v) for p in prev if not (isinstance(p, float) and p != p))
-                    if twin:
+                    plain_np = isinstance(v, np.generic) and type(gotv) is type(v.item()) and same_value(gotv, v.item())
+                    if plain_np:
+                        # the numpy scalar arrived as exactly its own Python value: independent of the history
+                        kind = "numpy_scalar->python_scalar"
+                    elif twin:
                         kind = "hash_equal_history"
                     elif isinstance(v, np.generic):
                         kind = "numpy_scalar->python_scalar"
